@@ -222,6 +222,97 @@ def oracle (k : Nat) : Obs → List Ev → List SExp → Except String Obs
           else oracle k { o with shutSeen := true, mustWake := o.parked } es rs
         else oracle k o es rs
 
+/-! ### exhaustive enumeration for K = 2 (no choice in `notify_one`: at most one worker can be waiting)
+
+The harness runs EVERY sequence over a small alphabet (in the order below) on the real market and sums a
+hash of each observed trace; `mk-exh` makes the model enumerate the same sequences itself and answers with
+the same digest. (Sequences up to a smaller length are, in addition, validated one by one with `mk-run`.) -/
+
+def fnv0 : UInt64 := 14695981039346656037
+def fnv (h : UInt64) (s : String) : UInt64 :=
+  s.foldl (fun h c => (h ^^^ c.toNat.toUInt64) * 1099511628211) h
+
+structure EnumSt where
+  s : MState
+  next : Nat
+  extras : Nat
+  lastShut : Bool
+  h : UInt64
+
+inductive HOp where
+  | xpush | pop (w : Nat) | split (w : Nat) | work (w : Nat) | drop (w : Nat) | xdrop
+
+def workersWith (s : MState) (p : Pc) : List Nat :=
+  (List.range s.pcs.length).filter fun i => s.pcs[i]? == some p
+
+/-- the alphabet, in the harness's order (`enabled_ops(.., small = true)`) -/
+def hops (e : EnumSt) : List HOp :=
+  [HOp.xpush] ++ (workersWith e.s .running).flatMap (fun w => [.pop w, .split w, .work w, .drop w])
+    ++ (if e.extras > 0 then [HOp.xdrop] else [])
+
+def stepPicks (s : MState) (mk : List Nat → Step) : Option (MState × Option PopRes) :=
+  match stepR s (mk (workersWith s (.parked false))) with
+  | some r => some r
+  | none => stepR s (mk [])
+
+def item (h : UInt64) (ev res : String) : UInt64 := fnv h (ev ++ "=" ++ res ++ ";")
+
+/-- every notified worker runs its wake step (K = 2: there is at most one) -/
+def cascade : Nat → MState → UInt64 → MState × UInt64
+  | 0, s, h => (s, h)
+  | f + 1, s, h =>
+    match workersWith s (.parked true) with
+    | [] => (s, h)
+    | v :: _ =>
+      match stepR s (.wake v) with
+      | some (s', r) => cascade f s' (item h s!"(wake {v})" (popResStr r))
+      | none => (s, h)
+
+/-- one operation as the harness performs it: the call, the wake-ups it causes, the `is_shut_down` probe
+    (logged when its answer changes) -/
+def applyH (e : EnumSt) (op : HOp) : EnumSt :=
+  let n := e.next
+  let (ev, r, next, extras) : String × Option (MState × String) × Nat × Nat := match op with
+    | .xpush => (s!"(xpush {n} {n+1})", (stepPicks e.s (.xpush [n, n+1])).map (fun x => (x.1, "-")), n + 2, e.extras)
+    | .pop w => (s!"(pop {w})", (stepR e.s (.popBegin w)).map (fun x => (x.1, popResStr x.2)), n, e.extras)
+    | .split w => (s!"(split {w})", (stepPicks e.s (.split w)).map (fun x => (x.1, toksStr (x.1.locs.getD w []))), n, e.extras)
+    | .work w => (s!"(work {w} 1 {n} {n+1})", (stepR e.s (.work w 1 [n, n+1])).map (fun x => (x.1, "-")), n + 2, e.extras)
+    | .drop w => (s!"(drop {w})", (stepR e.s (.drop w)).map (fun x => (x.1, "-")), n, e.extras)
+    | .xdrop => ("(xdrop)", (stepR e.s .xdrop).map (fun x => (x.1, "-")), n, e.extras - 1)
+  match r with
+  | none => { e with h := item e.h ev "!disabled", next := next, extras := extras }
+  | some (s', res) =>
+    let (s'', h) := cascade 4 s' (item e.h ev res)
+    let b := isShutDown s''
+    let h := if b != e.lastShut then item h "(shut)" (bstr b) else h
+    { s := s'', next := next, extras := extras, lastShut := b, h := h }
+
+/-- end of a sequence: pop every batch, then the two probes -/
+def tailH : Nat → EnumSt → UInt64
+  | 0, e => e.h
+  | f + 1, e =>
+    match e.s.isOpen && !e.s.batches.isEmpty, workersWith e.s .running with
+    | true, r :: _ => tailH f (applyH e (.pop r))
+    | _, _ => item (item e.h "(shut)" (bstr (isShutDown e.s))) "(closed)" (bstr (isClosed e.s))
+
+/-- (sum of the trace hashes, number) of all sequences that extend `e` by 1..d operations -/
+def enumAll : Nat → EnumSt → UInt64 × Nat
+  | 0, _ => (0, 0)
+  | d + 1, e =>
+    (hops e).foldl (fun acc op =>
+      let e' := applyH e op
+      let (s2, c2) := enumAll d e'
+      (acc.1 + tailH 64 e' + s2, acc.2 + 1 + c2)) (0, 0)
+
+def enumFrom (k tc depth first : Nat) : String :=
+  let e0 : EnumSt := { s := init k tc, next := 1, extras := 1, lastShut := false, h := fnv0 }
+  match (hops e0)[first]? with
+  | none => "no-such-op"
+  | some op =>
+    let e1 := applyH e0 op
+    let (s, c) := enumAll (depth - 1) e1
+    s!"{(s + tailH 64 e1).toNat} {c + 1}"
+
 def handle : Drv.Handler
   | "mk-run", [k, tc, evs] => do
     let k ← k.nat?; let tc ← tc.nat?
@@ -234,6 +325,8 @@ def handle : Drv.Handler
     pure (match oracle k { locs := List.replicate k [] } evs rs with
       | .error err => err
       | .ok o => (oracleEnd o).getD "ok")
+  | "mk-exh", [k, tc, depth, first] => do
+    pure (enumFrom (← k.nat?) (← tc.nat?) (← depth.nat?) (← first.nat?))
   | _, _ => none
 
 end SR.Drv.C05
